@@ -27,9 +27,9 @@ CLAIMED = {
          "machine-checked proof (Coq) + wire-first correspondence", "4 C05"),
  "C07": ("Coq theorems c07_sequence (any finite sequence of messages of arbitrary classes followed by arbitrary bytes decodes back to back to the original values), c07_tail_irrelevant / c07_consumes_prefix for every reader program, c07_any_append_sink for every append-only sink (Section hypothesis write-appends, checked on the real sinks); correspondence through BytesIO, write-only sink, BufferedWriter, asyncio.StreamWriter, read(n)-only source, BufferedReader",
          "machine-checked proof (Coq) by induction over message lists + sink/source correspondence", "4 C07"),
- "C11": ("Coq theorems over unbounded Z/lists: fixed-width round trip, exact byte length/big-endian value, out-of-range raises; varint minimal length, <=5/<=10 bytes, round trip; zig-zag non-negativity for every integer and round trips; every field-level primitive codec round trip/totality/typed outputs/permitted errors; correspondence of all 58 modelled public functions by name incl. exhaustive 8/16-bit and varint sweeps compared by CRC",
+ "C11": ("Coq theorems over unbounded Z/lists: fixed-width round trip, exact byte length/big-endian value, out-of-range raises; varint minimal length, <=5/<=10 bytes, round trip; zig-zag non-negativity for every integer and round trips; every field-level primitive codec round trip/totality/typed outputs/permitted errors; c11_public_reader_after_writer / c11_public_writers_raise_outside_domain: the same stated about the 58 public functions BY NAME over a table of 40 (writer, reader, domain) rows and 16 bounded writers with exact in-range predicates; correspondence of all 58 modelled public functions by name incl. exhaustive 8/16-bit and varint sweeps compared by CRC",
          "machine-checked proof (Coq) + exhaustive/boundary correspondence of public primitives", "4 C11"),
- "C17": ("Coq theorems c17_header_derived / c17_independent_decoder_recovers / c17_empty_rejected: the model of write_new_batch produces, for every non-empty record list, a batch whose fields at the format's byte offsets are the derived values, batch_length = len-12, CRC-32C over bytes 21..end, and an independent decoder recovers exactly the records; correspondence with kio.records.writers + independent Python decoder",
+ "C17": ("Coq theorems c17_header_derived / c17_independent_decoder_recovers / c17_empty_rejected: the model of write_new_batch produces, for every non-empty record list, a batch whose fields at the format's byte offsets are the derived values, batch_length = len-12, CRC-32C over bytes 21..end, and an independent decoder recovers exactly the records; c17_own_reader_recovers (kio's own reader, as modelled, returns the derived batch for every well-formed new batch, with any trailing bytes); correspondence with kio.records.writers + independent Python decoder",
          "machine-checked proof (Coq) against an independent format parser + correspondence", "4 C17"),
  "C18": ("Coq theorems: c18_fields_as_encoded, c18_magic_checked, c18_crc_checked, c18_crc_single_bit (CRC-32C detects every single-bit error in messages of any length, by GF(2)-linearity), c18_bit_flip_rejected, c18_truncation_rejected, c18_reader_inverts_writer (for every well-formed prepared batch and any trailing bytes the reader returns the batch, record timestamps floored to seconds), c18_rewrite_reproduces_partial / c18_rewrite_reproduces_iff / c18_rewrite_reproduces_refuted (re-writing reproduces the bytes exactly when no record has a sub-second millisecond part: the known finding as a theorem); correspondence on reference-encoded batches and the broker fixtures under identity/bit flips/truncation/CRC-forced truncation; one recorded known finding (whole-second record timestamps)",
          "machine-checked proof (Coq) incl. CRC linearity + fault-enumeration correspondence", "4 C18"),
@@ -42,7 +42,7 @@ CLAIMED = {
          "Coq instance theorem by vm_compute over translator output + correspondence", "4 C08"),
  "C09": ("instance theorem c09_shipped (every top-level class listed under exactly module:qualname, no stale entry, key<->name one-to-one) by vm_compute; loaders compared with the Gallina index model on all entries, near-misses and random lookups",
          "Coq instance theorem by vm_compute over translator output + correspondence", "4 C09"),
- "C10": ("Coq theorems c10_outcomes / c10_returned_value_reencodes: for every byte string decoding returns a typed (re-encodable) value with a suffix remainder or fails with a permitted error class, never out of loop fuel; correspondence on mutated encodings of every class",
+ "C10": ("Coq theorems c10_outcomes / c10_returned_value_reencodes: for every byte string decoding returns a typed (re-encodable) value with a suffix remainder or fails with a permitted error class, never out of loop fuel; a time-scaling probe (same shape at size n and 8n, valid / cut / corrupted, must scale linearly); correspondence on mutated encodings of every class",
          "machine-checked proof (Coq) + correspondence on malformed inputs", "4 C10"),
  "C14": ("instance theorem c14_shipped (module/class attribute agreement, contiguous versions, monotone flexibility, constant and unique keys, request/response version sets equal) by vm_compute over all 666 modules; cross-checked by a direct evaluation on the imported classes",
          "Coq instance theorem by vm_compute over translator output", "4 C14"),
